@@ -107,6 +107,9 @@ KINDS = {
                         [{"p": "s"}, [1, "a"], None], [{"p": 1}, [1], 5], False),
     "deny_list": ({"type": "string", "not": {"enum": ["bad", "worse"]}}, ["ok", ""], ["bad", 1], False),
     "str_pattern": ({"type": "string", "pattern": "^[a-z]+$"}, ["abc"], ["ABC", ""], False),
+    # length bounds where the UTF-8 byte length and the character count of the default fall on different sides
+    "str_mb": ({"type": "string", "minLength": 3, "maxLength": 3}, ["\u00e9\u00e9\u00e9", "\u65e5\u672c\u8a9e", "abc"], ["\u00e9\u00e9", "abcd", "\u00e9"], False),
+    "str_min3_mb": ({"type": "string", "minLength": 3}, ["\u00e9\u00e9\u00e9"], ["\u00e9\u00e9", "\u65e5"], False),
     "str_minmax": ({"type": "string", "minLength": 2, "maxLength": 3}, ["ab", "éé"], ["a", "abcd"], False),
     "enum_ext": (ref("Ext"), ["U", {"N": 1}, {"S": {"x": 1}}], ["Z", {"N": "s"}], False),
     "enum_int": (ref("Int"), [{"t": "A", "x": 1}, {"t": "B"}, {"t": "A", "x": 1, "y": "s"}], [{"t": "Z"}, {"t": "A"}], False),
@@ -124,7 +127,7 @@ KINDS = {
     "date": ({"type": "string", "format": "date"}, ["2020-02-29"], [], True),
 }
 QUICK_KINDS = ["bool", "u8", "i64", "nz32", "f64", "string", "str_max2", "str_enum", "opt_scalar", "opt_struct", "vec", "set", "map_int", "map_any", "map_key", "map_enum_key", "map_patprops", "map_key_len",
-               "tuple1", "tuple2", "struct", "struct_closed", "struct_renamed", "alias", "struct_req_nullable", "struct_nested_defaults", "struct_inline_defaults", "enum_inline_defaults", "struct_flat", "struct_flat_renamed", "struct_flat_renamed_inline", "enum_ext", "enum_int", "enum_adj", "enum_adj3", "allof_struct", "tuple_unit", "struct_unit_member", "enum_unt", "enum_ext_tuple", "enum_adj_tuple", "enum_unt_struct", "deny_list", "str_pattern",
+               "tuple1", "tuple2", "struct", "struct_closed", "struct_renamed", "alias", "struct_req_nullable", "struct_nested_defaults", "struct_inline_defaults", "enum_inline_defaults", "struct_flat", "struct_flat_renamed", "struct_flat_renamed_inline", "enum_ext", "enum_int", "enum_adj", "enum_adj3", "allof_struct", "tuple_unit", "struct_unit_member", "enum_unt", "enum_ext_tuple", "enum_adj_tuple", "enum_unt_struct", "deny_list", "str_pattern", "str_mb", "str_min3_mb", "str_minmax",
                "typed_enum", "boxed", "unit", "uuid"]
 
 
